@@ -108,7 +108,8 @@ def _build_freq(lab, i, d, w, ic, disc):
     return freq
 
 
-def _check_graph(lab, i, desc, out):
+def _check_graph(lab, i, desc, out, phase):
+    """phase 'taxonomy': path/wup/lch; phase 'ic': res/jcn/lin."""
     import wn.similarity as S
 
     d = G.norm(desc)
@@ -139,7 +140,8 @@ def _check_graph(lab, i, desc, out):
     def run(fn_name, key, fn, *args, **kwargs):
         st_, val = G.guarded(fn, *args, **kwargs)
         if st_ == 'exception':
-            disc(f'exception:{val[0]}', f'{fn_name}{key[1:]} in {val[1]}', 'no exception', val[2])
+            disc(f'exception:{val[0]}', f'in {val[1]}', 'no exception', val[2],
+                 f'{fn_name}{key[1:]}')
             return None
         res[key] = (st_, val)
         return res[key]
@@ -158,7 +160,7 @@ def _check_graph(lab, i, desc, out):
             disc(f'{fn_name}-value', f'{fn_name}{key[1:]}', sorted(set(candidates)), r[1], extra)
 
     # -- taxonomy metrics ------------------------------------------------------
-    for sr in (False, True):
+    for sr in ((False, True) if phase == 'taxonomy' else ()):
         rg = gr if sr else g              # None: cyclic graph with simulated root
         for a, b in todo:
             sa, sb = ss[a], ss[b]
@@ -234,7 +236,7 @@ def _check_graph(lab, i, desc, out):
     _symmetry(res, disc)
 
     # -- information-content metrics -------------------------------------------------
-    for q, ic in enumerate(desc.get('ics') or []):
+    for q, ic in enumerate((desc.get('ics') or []) if phase == 'ic' else []):
         freq = _build_freq(lab, i, d, w, ic, disc)
         if freq is None:
             continue
@@ -263,8 +265,8 @@ def _check_graph(lab, i, desc, out):
                 key = (name, a, b, f'ic{q}')
                 st_, val = G.guarded(fn, sa, sb, freq)
                 if st_ == 'exception':
-                    disc(f'exception:{val[0]}', f'{name}{key[1:]} in {val[1]}', 'no exception',
-                         val[2], ic['mode'])
+                    disc(f'exception:{val[0]}', f'in {val[1]}', 'no exception', val[2],
+                         f'{name}{key[1:]} {ic["mode"]}')
                 else:
                     results[name] = (key, (st_, val))
             if not compatible or not com:
@@ -330,10 +332,13 @@ def _symmetry(res, disc):
 def oracle(case):
     out = _Out()
     lab = G.Lab(case['graphs'])
-    for i, desc in enumerate(case['graphs']):
-        _check_graph(lab, i, desc, out)
-        if out.full():
-            break
+    # all taxonomy-based metrics first, so that a failure of the IC-based ones in an earlier
+    # graph of the batch does not decide which discrepancy is reported first
+    for phase in ('taxonomy', 'ic'):
+        for i, desc in enumerate(case['graphs']):
+            _check_graph(lab, i, desc, out, phase)
+            if out.full():
+                break
     return out.discs
 
 
@@ -423,8 +428,12 @@ def _decorated(draw, graph_strategy, n_ics):
     n = d['n']
     if n > 5:
         allp = [[a, b] for a in range(n) for b in range(a, n)]
-        d['pairs'] = sorted(draw(st.lists(st.sampled_from(allp), min_size=10, max_size=10,
-                                          unique_by=tuple)))
+        g = G.Graph.of(d)
+        multi = [] if G.has_cycle(g) else [[a, b] for a, b in allp
+                                           if len(G.lowest_common(g, a, b)) >= 2]
+        drawn = draw(st.lists(st.sampled_from(allp), min_size=8, max_size=8, unique_by=tuple))
+        d['pairs'] = sorted(set(map(tuple, multi[:6] + drawn)))
+        d['pairs'] = [list(p) for p in d['pairs']]
     return d
 
 
